@@ -14,7 +14,8 @@ import gen
 import jobs as J
 import model as M
 from gen import H, O
-from vlib import run_driver_parallel, coq_eval, warm_config, trace_to_coq, unhex
+from vlib import run_driver_parallel, coq_eval, warm_config, trace_to_coq, unhex, cb
+import fsmodel as F
 from props.C14 import diff, snapmap
 
 RES = 16 | 2
@@ -34,6 +35,9 @@ PATHS = ["x", "x/y/z", "a/b/c", "a/b/c/d/e", "l/new", "l/n1/n2", "abs/b/deep/er"
          "a/b", "a", "", ".", "/", "..", "../x", "sg/g1/g2", "a/b/c/", "a/b//c//", "x/./y", "a/b/up/q", "l/../viaL", "k (deleted)/m"]
 
 
+MODES = [0o755, 0o700, 0o1777, 0o750, 0o555, 0o500, 0o070, 0o1055, 0o000, 0o444, 0o711, 0o007]
+
+
 def run(ck):
     rng = random.Random(ck.seed)
     thorough = ck.tier == "thorough"
@@ -44,7 +48,8 @@ def run(ck):
     jobs = []
     jid = 0
     for p in PATHS:
-        for mode in ([0o755, 0o700, 0o1777, 0o750] if thorough else [rng.choice([0o755, 0o700, 0o1777])]):
+        # modes with and without the owner's write/search bits (the check runs as root, which may create inside a 0555 directory)
+        for mode in (MODES if thorough else [rng.choice(MODES[:3]), rng.choice(MODES[3:]), rng.randrange(0o2000)]):
             jid += 1
             jobs.append({"id": jid, "tree": tree, "op": {"k": "mkdir_all", "path": H(p), "mode": mode}, "snap": "all",
                          "post_raw": {"path": H(p or "."), "flags": O["PATH"], "resolve": RES}, "meta": {"path": p}})
@@ -53,7 +58,7 @@ def run(ck):
         for _ in range(5):
             p = gen.gen_path(rng, meta, malformed=rng.random() < 0.1) + rng.choice(["", "/n", "/n/m", "/../q/r", "/./w//v/"])
             jid += 1
-            jobs.append({"id": jid, "tree": t2, "op": {"k": "mkdir_all", "path": H(p), "mode": 0o755}, "snap": "all",
+            jobs.append({"id": jid, "tree": t2, "op": {"k": "mkdir_all", "path": H(p), "mode": rng.choice(MODES)}, "snap": "all",
                          "post_raw": {"path": H(p or "."), "flags": O["PATH"], "resolve": RES}, "meta": {"path": p}})
     # racing callers: same and overlapping paths
     cjobs = []
@@ -69,6 +74,7 @@ def run(ck):
     nontrivial = set()
     samples = []
     cases = []
+    fh_cases = []
     # invalid modes are refused before anything happens
     bad_mode_jobs = []
     for m in (0o2755, 0o4755, 0o40755, 0o7777, 0o10000):
@@ -141,7 +147,15 @@ def run(ck):
                 stats["chain_len"][len(added)] = stats["chain_len"].get(len(added), 0) + 1
                 pr = res.get("post_raw", {})
                 if "ok" not in pr or (pr["ok"]["dev"], pr["ok"]["ino"]) != (r["ok"]["dev"], r["ok"]["ino"]):
-                    ck.violation("C12: the returned handle is not the in-root resolution of the path in the resulting tree", dict(desc, kernel=pr))
+                    if deny and pr.get("err", {}).get("errno") == 40:
+                        # possibly the recorded link-budget difference F-H (C01): decided by the model on the resulting tree
+                        after_tree = list(job["tree"]) + [["dir", a.hex(), 0o755] for a in sorted(added)]
+                        mk, _ = F.tree_to_mkops(after_tree, res.get("build_errs", []))
+                        pb = cb(op["path"])
+                        fh_cases.append((len(fh_cases), f"let s := build {mk} in enc_wres (kwalk s {pb} false false) ++ enc_wres (ewalk s {pb} false false)",
+                                         dict(desc, kernel=pr)))
+                    else:
+                        ck.violation("C12: the returned handle is not the in-root resolution of the path in the resulting tree", dict(desc, kernel=pr))
                 elif (r["ok"]["mode"] & 0o170000) != 0o040000:
                     ck.violation("C12: mkdir_all returned a handle that is not a directory", desc)
                 for a in added:
@@ -164,6 +178,16 @@ def run(ck):
                 prog, enc = M.op_program({"op": op}, res, cfg, ps)
                 if prog:
                     cases.append((len(cases), f"enc_replay_diag {enc} (run_trace ({prog}) {trace_to_coq(res['trace'])} 0)", job, res, tag))
+    if fh_cases:
+        evals, cerrs = coq_eval([(c[0], c[1]) for c in fh_cases], header="From PV Require Import FSModel.", tag="c12fh")
+        kf = [f for f in ck.known if f["id"] == "F-H-linkbudget"]
+        for cid, term, desc in fh_cases:
+            got = evals.get(cid)
+            if kf and got is not None and len(got) == 4 and got[0] == 2 and got[2] == 0:
+                # kernel walk: budget exhausted; emulated walk: resolves
+                ck.known_finding(kf[0]["id"], kf[0]["what"])
+            else:
+                ck.violation("C12: the returned handle is not the in-root resolution of the path in the resulting tree", dict(desc, model=got))
     if not ck.proof_broken:
         evals, cerrs = coq_eval([(c[0], c[1]) for c in cases], header="From PV Require Import Replay.", tag="c12")
         if cerrs:
